@@ -13,7 +13,9 @@ HdrShapes == {"absent", "bearer", "lower", "upper", "blanks", "tab", "lead", "on
 \* exactly two whitespace-separated fields, the first being "bearer" in any case
 ValidSyntax(h) == h \in {"bearer", "lower", "upper", "blanks", "tab", "lead"}
 
-Verifiers == {"ok", "invalid", "wrapinvalid", "oauth", "other", "nilinfo"}
+\* "*_info": the verifier returns an error TOGETHER WITH a non-nil TokenInfo (e.g. claims parsed from a token whose
+\* signature check failed): the verifier does not accept the credential
+Verifiers == {"ok", "invalid", "wrapinvalid", "oauth", "other", "nilinfo", "invalid_info", "other_info"}
 ScopeU == {"a", "b", "c"}
 Required == {{}, {"a"}, {"a", "b"}}
 Granted == {{}, {"a"}, {"b"}, {"a", "b"}, {"a", "b", "c"}}
@@ -23,11 +25,13 @@ ExpDelta(e) == CASE e = "m1" -> -1 [] e = "eq" -> 0 [] e = "p1" -> 1
                  [] e = "farpast" -> -1000000 [] e = "farfuture" -> 1000000 [] OTHER -> 0
 Skews == {0, 5}
 
+\* dup: the granted scope LIST repeats each of its elements (scopes are a list in TokenInfo, not a set)
 Cases ==
-  { [hdr |-> h, ver |-> v, req |-> r, granted |-> g, exp |-> e, skew |-> s, allow |-> a, url |-> u, opts |-> o] :
-      h \in HdrShapes, v \in Verifiers, r \in Required, g \in Granted, e \in Exps, s \in Skews,
+  { [hdr |-> h, ver |-> v, req |-> r, granted |-> g, dup |-> d, exp |-> e, skew |-> s, allow |-> a, url |-> u, opts |-> o] :
+      h \in HdrShapes, v \in Verifiers, r \in Required, g \in Granted, d \in BOOLEAN, e \in Exps, s \in Skews,
       a \in BOOLEAN, u \in BOOLEAN, o \in {"nil", "set"} }
-ValidCase(c) == c.opts = "nil" => (c.req = {} /\ c.skew = 0 /\ ~c.allow /\ ~c.url)
+ValidCase(c) == /\ (c.opts = "nil" => (c.req = {} /\ c.skew = 0 /\ ~c.allow /\ ~c.url))
+                /\ (c.dup => (c.granted # {} /\ c.hdr \in {"bearer", "lower"}))
 CaseSet == {c \in Cases : ValidCase(c)}
 
 -----------------------------------------------------------------------------
@@ -39,9 +43,9 @@ Reject(c, st) ==
 
 Expected(c) ==
   IF ~ValidSyntax(c.hdr) THEN Reject(c, 401)
-  ELSE IF c.ver \in {"invalid", "wrapinvalid"} THEN Reject(c, 401)
+  ELSE IF c.ver \in {"invalid", "wrapinvalid", "invalid_info"} THEN Reject(c, 401)
   ELSE IF c.ver = "oauth" THEN Reject(c, 400)
-  ELSE IF c.ver \in {"other", "nilinfo"} THEN Reject(c, 500)
+  ELSE IF c.ver \in {"other", "nilinfo", "other_info"} THEN Reject(c, 500)
   ELSE IF c.opts = "set" /\ ~(c.req \subseteq c.granted) THEN Reject(c, 403)
   ELSE IF c.exp = "zero" THEN (IF c.allow THEN [status |-> 200, ran |-> TRUE, sameInfo |-> TRUE, chal |-> FALSE, chalUrl |-> FALSE, chalScope |-> FALSE]
                                ELSE Reject(c, 401))
@@ -58,9 +62,9 @@ Admit(c) == /\ ValidSyntax(c.hdr) /\ c.ver = "ok"
 \* the statuses that the causes present in c mandate
 CauseStatuses(c) ==
   IF ~ValidSyntax(c.hdr) THEN {401}
-  ELSE IF c.ver \in {"invalid", "wrapinvalid"} THEN {401}
+  ELSE IF c.ver \in {"invalid", "wrapinvalid", "invalid_info"} THEN {401}
   ELSE IF c.ver = "oauth" THEN {400}
-  ELSE IF c.ver \in {"other", "nilinfo"} THEN {500}
+  ELSE IF c.ver \in {"other", "nilinfo", "other_info"} THEN {500}
   ELSE (IF ~(c.req \subseteq c.granted) THEN {403} ELSE {}) \cup (IF ~Unexpired(c) THEN {401} ELSE {})
 
 Holds(c, o) ==
